@@ -5,9 +5,22 @@ import Carquet.Impl.Crc32
 Driver ops for C14 (CRC part).
   crc data=x.. | r=<u32>                   carquet_crc32
   crc_upd a=x.. b=x.. | r=<u32> ra=<u32>   ra = carquet_crc32(a); r = carquet_crc32_update(ra, b)
+  crc_dmg data=x.. d2=x.. | r=<u32> r2=<u32>   r = carquet_crc32(data); r2 = carquet_crc32(d2);
+                                           d2 differs from data inside one window of <= 32 bits
 -/
 namespace Driver.Ops.Crc
 open Carquet Carquet.Util
+
+/-- Positions (in `Spec.Crc32.bits` order) at which two messages differ. -/
+def diffPositions (d d' : List UInt8) : List Nat :=
+  (((Spec.Crc32.bits d).zip (Spec.Crc32.bits d')).zipIdx.filter (fun p => p.1.1 != p.1.2)).map (·.2)
+
+/-- Linear-time evaluation of `Spec.Crc32.BurstDamage w d d'` (first and last differing bit). -/
+def isBurst (w : Nat) (d d' : List UInt8) : Bool :=
+  d.length == d'.length &&
+  (match (diffPositions d d').head?, (diffPositions d d').getLast? with
+   | some a, some b => b < a + w
+   | _, _ => false)
 
 def handle (l : Line) : Option Verdict :=
   match l.op with
@@ -24,6 +37,16 @@ def handle (l : Line) : Option Verdict :=
                ("impl_model_upd", (Impl.Crc32.update (BitVec.ofNat 32 ra) b).toNat == r)]
               [("update_composes", (Spec.Crc32.crc32 (a ++ b)).toNat == r)]
     | _, _, _, _ => .bad "crc_upd args"
+  | "crc_dmg" => some <|
+    match l.inHex "data", l.inHex "d2", l.outNat "r", l.outNat "r2" with
+    | some d, some d2, some r, some r2 =>
+      if isBurst 32 d d2 then
+        verdict [("impl_model", (Impl.Crc32.crc32 d).toNat == r),
+                 ("impl_model_d2", (Impl.Crc32.crc32 d2).toNat == r2)]
+                [("ieee_crc32_d2", (Spec.Crc32.crc32 d2).toNat == r2),
+                 ("burst_detected", r != r2)]
+      else .bad "crc_dmg: d2 is not a <=32-bit burst damage of data"
+    | _, _, _, _ => .bad "crc_dmg args"
   | _ => none
 
 end Driver.Ops.Crc
